@@ -821,6 +821,28 @@ def assoc_over(c, sub=None):
     return sorted(out)
 
 
+def qa_across_operator(c):
+    """structural flag for the known disagreement between the coder's and the wiring pass's quality-information
+    state: after 222000 the coder keeps waiting for the first class 33 element whatever comes in between, the wiring
+    pass (templatedata.wire_operator_descriptor) forgets 222000 at the next 223/224/225/232 (any operand) or 235000
+    operator - a class 33 element that follows such an operator is linked by the coder and left unattached by the
+    wiring pass (flat scan of the template, like assoc_over)"""
+    waiting = False
+    crossed = False
+    for i in c.ids:
+        f, code, x = i // 100000, i // 1000, (i // 1000) % 100
+        if i == 222000:
+            waiting, crossed = True, False
+        elif f == 2 and code in (223, 224, 225, 232, 235):
+            if waiting:
+                crossed = True
+        elif f == 0 and x == 33:
+            if waiting and crossed:
+                return True
+            waiting = False
+    return False
+
+
 def features(c):
     f = set()
     for d in c.info:
@@ -1050,13 +1072,15 @@ def run_chunk(ctx, drv, treq, cases):
         ao = assoc_over(c)
         if im['wire'] != 'ok':
             ctx.count('wire-failed')
-            report(ctx, c, 'view: wiring fails (%s) although the flat decode succeeds' % im['wire'], b, stage='wire', extra={'assoc_over': ao})
+            report(ctx, c, 'view: wiring fails (%s) although the flat decode succeeds' % im['wire'], b, stage='wire',
+                   extra={'assoc_over': ao, 'qa_across_operator': qa_across_operator(c)})
             continue
         for s, sub in enumerate(im['subsets']):
             si = 0 if c.comp else s
             why = check_view(sub, im['subsets'][si]['l'], im['nodes'][si], im['nested'][s])
             if why:
-                report(ctx, c, 'view: subset %d: %s' % (s, why), b, stage='wire', extra={'assoc_over': ao})
+                report(ctx, c, 'view: subset %d: %s' % (s, why), b, stage='wire',
+                       extra={'assoc_over': ao, 'qa_across_operator': qa_across_operator(c)})
                 break
         else:
             ctx.count('view-checked')
